@@ -6,20 +6,28 @@
 //!   simcheck determinism <PROP> [--cases N]
 //!   (internal) worker | exec-case | gen-case
 
+#[path = "m/alloc.rs"]
 mod alloc;
+#[path = "m/c22.rs"]
 mod c22;
+#[path = "m/c29.rs"]
 mod c29;
 mod c19;
 mod gen;
+mod c01;
 mod c04;
 mod damage;
 mod disk;
 mod simdisk;
 mod synth;
 mod trace;
+#[path = "m/common.rs"]
 mod common;
+#[path = "m/runner.rs"]
 mod runner;
+#[path = "m/sched.rs"]
 mod sched;
+#[path = "m/simseam.rs"]
 mod simseam;
 
 use common::*;
@@ -29,7 +37,7 @@ use runner::*;
 static GLOBAL: alloc::Tracking = alloc::Tracking;
 
 fn props() -> Vec<Box<dyn Property>> {
-    vec![Box::new(c04::C04), Box::new(c19::C19), Box::new(c22::C22), Box::new(c29::C29)]
+    vec![Box::new(c01::C01), Box::new(c04::C04), Box::new(c19::C19), Box::new(c22::C22), Box::new(c29::C29)]
 }
 
 fn find(id: &str) -> Option<Box<dyn Property>> {
